@@ -27,6 +27,8 @@ import struct
 from common import cN, cZ, clist, copt, cpair, ccodepoints
 
 THEORY = "C20"
+# private names whose disappearance only disables one bucket (harness/main.py): name -> bucket
+OPTIONAL_PRIVATE = {"_find_sequential_ranges": "ranges"}
 
 # ------------------------------------------------------------------------------------------------
 # simulated ADwin
@@ -803,6 +805,8 @@ def gen_syms(rng):
 
 
 def gen_ranges(ck):
+    if "_find_sequential_ranges" in getattr(ck, "skipped_private", ()):
+        return []
     rng = ck.rng
     out = []
     for n in range(0, 5):
